@@ -2,8 +2,10 @@
 
 use crate::Ctx;
 use crate::out::Sink;
-use crate::rt::{RVal, ROut, Sess};
+use crate::rt::{mk_value, RVal, ROut, Sess};
+use std::cell::{Cell, RefCell};
 use blots_core::units::{self, Unit};
+use blots_core::values::Value;
 use serde_json::json;
 
 fn uname(u: &Unit) -> String {
@@ -40,6 +42,56 @@ const SI: [(&str, i32); 20] = [
 const SI2: [(&str, i32); 1] = [("yotta", 24)];
 const BIN: [(&str, i32); 8] = [("kibi", 10), ("mebi", 20), ("gibi", 30), ("tebi", 40), ("pebi", 50), ("exbi", 60), ("zebi", 70), ("yobi", 80)];
 
+/// Every conversion the monitors look at goes through both entry points the property names: the
+/// unit-table function `units::convert` and the language-level `convert` built-in (evaluated with the
+/// value and both unit strings bound as variables, so no literal syntax is involved). The two must
+/// agree bit for bit on success and both fail on failure; the monitors then judge the common answer.
+struct Conv {
+    sess: RefCell<Sess>,
+    calls: Cell<u64>,
+    reported: Cell<u64>,
+}
+
+impl Conv {
+    fn new() -> Conv {
+        Conv { sess: RefCell::new(Sess::new()), calls: Cell::new(0), reported: Cell::new(0) }
+    }
+    fn builtin(&self, x: f64, from: &str, to: &str) -> ROut {
+        let n = self.calls.get() + 1;
+        self.calls.set(n);
+        if n % 4000 == 0 {
+            *self.sess.borrow_mut() = Sess::new(); // the arena never shrinks
+        }
+        let sess = self.sess.borrow();
+        sess.bind("vx", Value::Number(x));
+        sess.bind("ua", mk_value(&sess.heap, &RVal::Str(from.to_string())));
+        sess.bind("ub", mk_value(&sess.heap, &RVal::Str(to.to_string())));
+        sess.rout(&sess.eval("convert(vx, ua, ub)"))
+    }
+    fn convert(&self, sink: &mut Sink, x: f64, from: &str, to: &str) -> Result<f64, String> {
+        let lib = units::convert(x, from, to).map_err(|e| e.to_string());
+        let got = self.builtin(x, from, to);
+        let agree = match (&lib, &got) {
+            (Ok(v), ROut::Ok(r)) => *r == RVal::num(*v) || (v.is_nan() && matches!(r, RVal::Num(b) if f64::from_bits(*b).is_nan())),
+            (Err(_), ROut::Err(_)) => true,
+            _ => false,
+        };
+        if !agree && self.reported.get() < 40 {
+            self.reported.set(self.reported.get() + 1);
+            sink.viol(
+                &format!("builtin-differs {}->{}", from, to),
+                "the convert built-in and the unit table's conversion disagree",
+                json!({"value": x, "from": from, "to": to, "unit_table": match &lib { Ok(v) => json!(v), Err(e) => json!({"error": e}) }, "builtin": got.show()}),
+            );
+        }
+        lib
+    }
+    /// resolution as the built-in sees it: `convert(1, id, id)` succeeds iff `id` resolves
+    fn builtin_resolves(&self, id: &str) -> ROut {
+        self.builtin(1.0, id, id)
+    }
+}
+
 /// the harness's reading of "resolves exactly, or case-insensitively when unambiguous"
 fn model_resolve(all: &[Unit], s: &str) -> Result<usize, &'static str> {
     let exact: Vec<usize> = (0..all.len()).filter(|i| all[*i].identifiers.contains(&s)).collect();
@@ -68,6 +120,7 @@ pub fn run(ctx: &Ctx, sink: &mut Sink) {
     let n_ids: usize = all.iter().map(|u| u.identifiers.len()).sum();
     sink.count("identifiers_in_table", n_ids as u64);
     let mut idx = 0u64;
+    let cv = Conv::new();
 
     // ---- (1) every identifier of every unit resolves to that unit; case variants per the rule
     for (ui, u) in all.iter().enumerate() {
@@ -87,6 +140,9 @@ pub fn run(ctx: &Ctx, sink: &mut Sink) {
                     json!({"identifier": id, "listed_for": uname(u), "also_listed_for": listed_in.iter().filter(|i| **i != ui).map(|i| uname(&all[*i])).collect::<Vec<_>>(), "error": e.to_string()}),
                 ),
             }
+            if !matches!(cv.builtin_resolves(id), ROut::Ok(_)) && units::resolve_unit(id).is_ok() {
+                sink.viol(&format!("builtin-resolution unit-id=\"{}\"", id), "the convert built-in rejects an identifier the unit table resolves", json!({"identifier": id}));
+            }
             // case variants
             for variant in [id.to_uppercase(), id.to_lowercase(), capitalise(id), swapcase(id)] {
                 if variant == *id {
@@ -95,6 +151,13 @@ pub fn run(ctx: &Ctx, sink: &mut Sink) {
                 let exp = model_resolve(&all, &variant);
                 let got = units::resolve_unit(&variant);
                 sink.case(&format!("resolve-ci|{}", variant), true);
+                if matches!(cv.builtin_resolves(&variant), ROut::Ok(_)) != exp.is_ok() {
+                    sink.viol(
+                        &format!("builtin-resolution case-variant of unit-id=\"{}\"", id),
+                        "the convert built-in's resolution of a spelling does not follow 'unique match or error'",
+                        json!({"spelling": variant, "expected_resolves": exp.is_ok(), "builtin": cv.builtin_resolves(&variant).show()}),
+                    );
+                }
                 let ok = match (&exp, &got) {
                     (Ok(i), Ok(r)) => same_unit(&all[*i], r),
                     (Err(_), Err(_)) => true,
@@ -119,6 +182,9 @@ pub fn run(ctx: &Ctx, sink: &mut Sink) {
         sink.case(&format!("unknown|{}", k), true);
         let exp = model_resolve(&all, s);
         let got = units::resolve_unit(s);
+        if exp.is_err() && matches!(cv.builtin_resolves(s), ROut::Ok(_)) {
+            sink.viol(&format!("unknown-spelling-guessed-by-builtin \"{}\"", s), "the convert built-in accepted an unknown identifier instead of reporting it", json!({"spelling": s, "builtin": cv.builtin_resolves(s).show()}));
+        }
         if exp.is_err() && got.is_ok() {
             sink.viol(&format!("unknown-spelling-guessed \"{}\"", s), "an unknown identifier was resolved instead of reported", json!({"spelling": s, "resolved_to": uname(&got.unwrap())}));
         }
@@ -143,13 +209,13 @@ pub fn run(ctx: &Ctx, sink: &mut Sink) {
             sink.case(&format!("pair|{}|{}", ai, bi), true);
             if a.category != b.category {
                 // (7) cross-category: error
-                if let Ok(v) = units::convert(1.0, a0, b0) {
+                if let Ok(v) = cv.convert(sink, 1.0, a0, b0) {
                     sink.viol(&format!("cross-category {}->{}", a.category.name(), b.category.name()), "units of different categories are convertible", json!({"from": uname(a), "to": uname(b), "result": v}));
                 }
                 continue;
             }
             for x in MAGS.iter() {
-                let r1 = match units::convert(*x, a0, b0) {
+                let r1 = match cv.convert(sink, *x, a0, b0) {
                     Ok(v) => v,
                     Err(e) => {
                         sink.viol(&format!("pair={}->{}", a0, b0), "same-category conversion fails", json!({"from": uname(a), "to": uname(b), "error": e.to_string()}));
@@ -166,7 +232,7 @@ pub fn run(ctx: &Ctx, sink: &mut Sink) {
                 }
                 // (4) round trip
                 let base = a.convert_to_base(*x);
-                let back = match units::convert(r1, b0, a0) {
+                let back = match cv.convert(sink, r1, b0, a0) {
                     Ok(v) => v,
                     Err(_) => continue,
                 };
@@ -192,14 +258,66 @@ pub fn run(ctx: &Ctx, sink: &mut Sink) {
                 if units::resolve_unit(ida).is_err() {
                     continue;
                 }
-                let r0 = units::convert(37.5, a0, b0);
-                let r = units::convert(37.5, ida, b0);
-                let rb = units::convert(37.5, b0, ida);
-                let rb0 = units::convert(37.5, b0, a0);
+                let r0 = cv.convert(sink, 37.5, a0, b0);
+                let r = cv.convert(sink, 37.5, ida, b0);
+                let rb = cv.convert(sink, 37.5, b0, ida);
+                let rb0 = cv.convert(sink, 37.5, b0, a0);
                 if let (Ok(r0), Ok(r), Ok(rb), Ok(rb0)) = (r0, r, rb, rb0) {
                     if r0.to_bits() != r.to_bits() || rb.to_bits() != rb0.to_bits() {
                         sink.viol(&format!("alias-differs unit-id=\"{}\"", ida), "two identifiers of one unit convert differently", json!({"unit": uname(a), "identifier": ida, "other": uname(b)}));
                     }
+                }
+            }
+        }
+    }
+
+    // ---- (2b) every ordered pair of identifiers of one category (both entry points): the answer
+    // depends only on the two units, never on which of their spellings was used
+    let mut ip = 0u64;
+    for (ai, a) in all.iter().enumerate() {
+        let a0 = a.identifiers[0];
+        for (bi, b) in all.iter().enumerate() {
+            if a.category != b.category {
+                continue;
+            }
+            let b0 = b.identifiers[0];
+            ip += 1;
+            if !ctx.mine(ip) || units::resolve_unit(a0).is_err() || units::resolve_unit(b0).is_err() {
+                continue;
+            }
+            let Ok(r0) = units::convert(37.5, a0, b0) else { continue };
+            for ida in a.identifiers.iter() {
+                for idb in b.identifiers.iter() {
+                    if units::resolve_unit(ida).is_err() || units::resolve_unit(idb).is_err() {
+                        continue;
+                    }
+                    sink.case(&format!("idpair|{}|{}", ida, idb), ai != bi);
+                    match cv.convert(sink, 37.5, ida, idb) {
+                        Ok(r) if r.to_bits() == r0.to_bits() => {}
+                        other => sink.viol(
+                            &format!("alias-pair-differs {}->{}", ida, idb),
+                            "a pair of identifiers converts differently from the first identifiers of the same two units",
+                            json!({"from": ida, "to": idb, "units": [uname(a), uname(b)], "first_identifiers_give": r0, "got": format!("{:?}", other)}),
+                        ),
+                    }
+                }
+            }
+        }
+    }
+    // unresolvable spellings as either argument of the built-in: always an error
+    for (k, s) in ["meterz", "", "kilo", "MA", "ma", "Ma", "foobar"].iter().enumerate() {
+        if !ctx.mine(k as u64) {
+            continue;
+        }
+        if units::resolve_unit(s).is_ok() {
+            continue;
+        }
+        for other in [*s, "m", "amperes", "bytes"] {
+            for (f, t) in [(*s, other), (other, *s)] {
+                sink.case(&format!("unres|{}|{}", f, t), true);
+                let _ = cv.convert(sink, 1.0, f, t);
+                if matches!(cv.builtin(1.0, f, t), ROut::Ok(_)) {
+                    sink.viol(&format!("unresolvable-accepted {}->{}", f, t), "a conversion naming an unknown or ambiguous identifier succeeded", json!({"from": f, "to": t}));
                 }
             }
         }
@@ -225,8 +343,8 @@ pub fn run(ctx: &Ctx, sink: &mut Sink) {
                 }
                 let (a0, b0, c0) = (a.identifiers[0], b.identifiers[0], c.identifiers[0]);
                 let x = [37.5, -1e-6, 1e6, 1.0][(t % 4) as usize];
-                let (Ok(ab), Ok(ac)) = (units::convert(x, a0, b0), units::convert(x, a0, c0)) else { continue };
-                let Ok(abc) = units::convert(ab, b0, c0) else { continue };
+                let (Ok(ab), Ok(ac)) = (cv.convert(sink, x, a0, b0), cv.convert(sink, x, a0, c0)) else { continue };
+                let Ok(abc) = cv.convert(sink, ab, b0, c0) else { continue };
                 sink.case(&format!("triple|{}|{}|{}", ai, bi, ci), true);
                 let temp = matches!(a.conversion, units::ConversionType::Temperature { .. });
                 let mag = [x.abs(), a.convert_to_base(x).abs(), ab.abs(), ac.abs(), abc.abs(), if temp { 500.0 } else { 0.0 }].iter().cloned().fold(0.0, f64::max);
@@ -257,7 +375,7 @@ pub fn run(ctx: &Ctx, sink: &mut Sink) {
                                     if units::resolve_unit(ida).is_err() || units::resolve_unit(idb).is_err() {
                                         continue;
                                     }
-                                    let Ok(got) = units::convert(1.0, ida, idb) else { continue };
+                                    let Ok(got) = cv.convert(sink, 1.0, ida, idb) else { continue };
                                     pairs += 1;
                                     sink.case(&format!("prefix|{}|{}", ida, idb), true);
                                     if !close(got, expected, expected, 4.0) {
@@ -273,7 +391,7 @@ pub fn run(ctx: &Ctx, sink: &mut Sink) {
         sink.count("prefix_pairs", pairs);
         // the built-in goes through the same table, with (value, from, to) in that order
         for (from, to) in [("km", "m"), ("kilometers", "meters"), ("kilograms", "grams"), ("hours", "minutes"), ("celsius", "kelvin")] {
-            let lib = units::convert(3.0, from, to);
+            let lib = cv.convert(sink, 3.0, from, to);
             let got = sess.rout(&sess.eval(&format!("convert(3, \"{}\", \"{}\")", from, to)));
             sink.case(&format!("builtin|{}|{}", from, to), true);
             match lib {
